@@ -103,6 +103,9 @@ static void* dbuf(uint64_t nbytes) {
   double* p = (double*)malloc((nbytes / 8) * sizeof(double));
 #ifdef __CPROVER__
   __CPROVER_assume(p != 0);
+#else
+  /* native replay: "prior contents" are a non-zero pattern (fresh heap pages are zero, which hides output words that are never written) */
+  for (uint64_t i = 0; i < nbytes / 8; ++i) p[i] = 1.5;
 #endif
   return p;
 }
@@ -119,6 +122,7 @@ static void* tbuf(uint64_t nbytes) {
   __CPROVER_assume(p != 0);
 #else
   double* p = (double*)aligned_alloc(64, ((nbytes + 8 * TOFFS + 63) / 64) * 64);
+  for (uint64_t i = 0; i < nbytes / 8 + TOFFS; ++i) p[i] = 1.5;
 #endif
   return p + TOFFS;
 #endif
